@@ -330,7 +330,9 @@ pub fn build_spelling(raw: &RawSpell, dim: &Dim) -> USpell {
         let r = pick_idx(raw.order, factors.len());
         factors.rotate_left(r);
     }
-    USpell { factors, slash: raw.slash, star: raw.star }
+    // one spelling in six carries a factor that cancels inside it, written with explicit exponents
+    let noise = if (raw.order >> 4) % 6 == 0 { 1 + (raw.order >> 7) } else { 0 };
+    USpell { factors, slash: raw.slash, star: raw.star, noise, starstar: (raw.order >> 2) % 5 == 0 }
 }
 
 /// A free spelling (its dimension is whatever the picks give), then optionally
@@ -387,7 +389,7 @@ pub fn single_unit() -> impl Strategy<Value = USpell> {
         let prop = proportional_units();
         let ui = prop[pick_idx(u, prop.len())];
         let word = safe_word(ui, w, p).unwrap();
-        USpell { factors: vec![(word, 1)], slash: true, star: true }
+        USpell { factors: vec![(word, 1)], slash: true, star: true, noise: 0, starstar: false }
     })
 }
 
@@ -399,5 +401,5 @@ pub fn fixed_spell(parts: &[(&str, i32)]) -> USpell {
         let wi = w.all.iter().find(|wi| wi.word.text == *t && wi.safe).unwrap_or_else(|| panic!("word {} is not a safe word", t));
         factors.push((wi.word.clone(), *p));
     }
-    USpell { factors, slash: true, star: true }
+    USpell { factors, slash: true, star: true, noise: 0, starstar: false }
 }
